@@ -165,32 +165,7 @@ class C10(core.Prop):
         return cl
 
     def classify(self, shape, cinp, cobs, clauses):
-        if shape.get('mode') == 'coarse':
-            return None
-        # known finding: a shared *aromatic* atom makes the resolver raise "cannot be kekulized" when the stale
-        # hydrogen count of the kept copy (computed inside its own fragment) makes it look saturated.
-        # Signature: only the 'accepted' clause fails, with SyntaxError; some shared pair duplicates an aromatic atom;
-        # and the same case written with ordinary descriptors for those cuts resolves to the spec molecule.
-        if clauses != ['accepted'] or cobs != ('exc', 'SyntaxError'):
-            return None
-        mol = gm.parse_smiles(shape['smiles'])
-        cuts = [tuple(c) for c in shape['cut']]
-        arom_shared = [ci for ci, end in shape['shared'] if mol.atoms[cuts[ci][1] if end == 1 else cuts[ci][0]].get('aromatic')]
-        if not arom_shared:
-            return None
-        from cgsmiles.resolve import MoleculeResolver
-        plain = dict(shape, shared=[s for s in shape['shared'] if s[0] not in arom_shared])
-        eng = symx.set_engine(symx.Engine())
-        eng.start_run()
-        r = pl.render_case(plain)
-        wit = eng.get_model()
-        text = symx.concretize(r.text, wit)
-        obs = core.guard(pl.run_resolver, __import__('vf.loader', fromlist=['x']).load_orig(self.MODULES), text)
-        if obs[0] != 'ok':
-            return None
-        g, h_ok, _ = pl.observed_heavy_graph(obs[1]['mol'])
-        ok = gg.iso_clause(g, pl.spec_graph(mol), pl.node_eq, pl.edge_eq)
-        return 'C10-shared-aromatic-atom-stale-hcount' if ok is True else None
+        return None
 
     def sample(self, shape, cinp):
         return cinp['text']
@@ -198,8 +173,8 @@ class C10(core.Prop):
     MUTANTS = {
         'membership_not_concatenated': {'resolve': (
             "            self.molecule.nodes[node_to_keep]['fragid'] += self.molecule.nodes[node_to_keep]['contraction'][node_to_remove]['fragid']\n", "")},
-        'repeated_merge_not_remapped': {'resolve': ("            node_to_keep = squashed.get(edge[0], edge[0])\n            node_to_remove = squashed.get(edge[1], edge[1])",
-                                                    "            node_to_keep = edge[0]\n            node_to_remove = edge[1]")},
+        'repeated_merge_not_remapped': {'resolve': ("            while node_to_keep in squashed:\n                node_to_keep = squashed[node_to_keep]\n", "")},
+        'hcount_not_lowered_on_squash': {'resolve': ("                self.molecule.nodes[node_to_keep]['hcount'] = max(0, hcount - taken)\n", "")},
     }
 
 
